@@ -63,6 +63,12 @@ struct RunData {
   int stride[ORC_N_VARIABLES] = {0};
   int params[ORC_N_VARIABLES] = {0};          // incl. high halves at +ORC_N_PARAMS
   int acc[4] = {0, 0, 0, 0};
+  // 0: executor zeroed and bound with orc_executor_set_program(); 1: the way orcc-generated wrappers do it:
+  // an uninitialised (here: seeded garbage) OrcExecutor in which only program / code, n, m, arrays, strides and
+  // parameters are assigned -- counters, unused slots and the cached entry points hold garbage
+  int exstyle = 0;
+  uint64_t exgarbage = 0;
+  size_t len[ORC_N_VARIABLES] = {0};          // bytes of each array that belong to the run (rows, padding, slack)
 };
 // Seeded inputs for a program shape.  `nreq`<=0 picks n from the seed.
 void make_inputs(const ProgMeta &meta, uint64_t dataseed, int nreq, RunData &d);
